@@ -171,36 +171,46 @@ deriving Repr
 /-- the colour printed for a score -/
 def scoreColor (ν : Nums) (i side : Nat) : PyStr := py!"rgb(" ++ (ν .score i side ++ py!")")
 
+/-- the `labels` argument as an array of length `n` -/
+def labelArray (n : Nat) : Labels → Except PyErr (List Int)
+  | .dict kv => setMany (List.replicate n (-1 : Int)) kv
+  | .arr l isList =>
+    if isList ∧ l.length ≠ n then .error .valueError
+    else if l.length ≠ n then .error .indexError
+    else .ok l
+
+/-- `node_colors[index] = label_colors[labels[index] % len(label_colors)]` with `index = labels >= 0` -/
+def colorsFromLabels (n : Nat) (labs : List Int) (colors : List PyStr) (nodeColor : PyStr) : List PyStr :=
+  tab n fun i =>
+    let l := labs.getD i (-1)
+    if l ≥ 0 then colors.getD (l % (colors.length : Int)).toNat [] else nodeColor
+
 /-- `get_node_colors(n, labels, scores, membership, node_color, label_colors)`;
     `side` distinguishes rows and columns of a bipartite graph in the number slots -/
 def getNodeColors (ν : Nums) (side n : Nat) (labels : Option Labels) (scores : Option Scores) (hasMembership : Bool)
-    (nodeColor : PyStr) (lc : LabelColors) : Except PyErr (List PyStr) := do
-  let nodeColors := List.replicate n nodeColor
+    (nodeColor : PyStr) (lc : LabelColors) : Except PyErr (List PyStr) :=
   match labels with
   | some lab =>
-    let labs : List Int ← match lab with
-      | .dict kv => setMany (List.replicate n (-1 : Int)) kv
-      | .arr l isList =>
-        if isList ∧ l.length ≠ n then throw .valueError
-        else if l.length ≠ n then throw .indexError
-        else pure l
-    let colors ← getLabelColors lc
-    if colors.length = 0 then throw .indexError
-    pure (tab n fun i =>
-      let l := labs.getD i (-1)
-      if l ≥ 0 then colors.getD (l % (colors.length : Int)).toNat [] else nodeColors.getD i [])
+    match labelArray n lab with
+    | .error e => .error e
+    | .ok labs =>
+      match getLabelColors lc with
+      | .error e => .error e
+      | .ok colors =>
+        if colors.length = 0 then .error .indexError
+        else .ok (colorsFromLabels n labs colors nodeColor)
   | none =>
     match scores with
-    | some (.dict keys) => setMany nodeColors (keys.map fun k => (k, scoreColor ν k side))
+    | some (.dict keys) => setMany (List.replicate n nodeColor) (keys.map fun k => (k, scoreColor ν k side))
     | some (.arr len isList) =>
-      if isList ∧ len ≠ n then throw .valueError
-      else pure (tab len fun i => scoreColor ν i side)
+      if isList ∧ len ≠ n then .error .valueError
+      else .ok (tab len fun i => scoreColor ν i side)
     | none =>
       if hasMembership then
         match lc with
-        | .dict _ => throw .typeError
+        | .dict _ => .error .typeError
         | _ => getLabelColors lc
-      else pure nodeColors
+      else .ok (List.replicate n nodeColor)
 
 /-! ### `rescale` (exact arithmetic; decides only whether two nodes are drawn at the same place) -/
 
@@ -296,34 +306,51 @@ structure EdgeColors where
   residual : List (Nat × Nat × PyStr)
 deriving Repr
 
+/-- state of the loop over `edge_labels`: `adjacency_labels.data` and `edge_colors_residual` -/
+structure LabelState where
+  data : List Int
+  residual : List (Nat × Nat × PyStr)
+
+/-- body of `for i, j, label in edge_labels:`; `posEs` = the stored entries of `adjacency > 0` -/
+def edgeLabelStep (nRow nCol : Nat) (es posEs : List Entry) (colors : List PyStr) (st : LabelState)
+    (lab : Int × Int × Int) : Except PyErr LabelState :=
+  let i := lab.1
+  let j := lab.2.1
+  let label := lab.2.2
+  if i < 0 ∨ i ≥ (nRow : Int) ∨ j < 0 ∨ j ≥ (nCol : Int) then .error PyErr.valueError
+  else if colors.length = 0 then .error PyErr.zeroDivisionError
+  else
+    let c := (label % (colors.length : Int)).toNat
+    if entryAt es i.toNat j.toNat ≠ 0 then
+      match posEs.findIdx? (fun e => e.1 = i.toNat ∧ e.2.1 = j.toNat) with
+      | some k => .ok ⟨st.data.set k (c : Int), st.residual⟩
+      | none => .error PyErr.outOfModel       -- scipy inserts a new entry into `adjacency_labels`
+    else .ok ⟨st.data, st.residual ++ [(i.toNat, j.toNat, colors.getD c [])]⟩
+
+/-- `edge_colors`: the default colour, overwritten where `adjacency_labels.data >= 0` -/
+def edgeColorArray (m : Nat) (data : List Int) (colors : List PyStr) (edgeColor : PyStr) : List PyStr :=
+  tab m fun k =>
+    let v := if k < data.length then data.getD k (-1) else -1
+    if v ≥ 0 then colors.getD v.toNat [] else edgeColor
+
 /-- `get_edge_colors(adjacency, edge_labels, edge_color, label_colors)`; `es` = stored entries in storage order.
     `adjacency_labels = (adjacency > 0)` stores the positive entries only (in storage order): `data`, `edge_order`
     and the positions that receive a label colour are numbered in *that* matrix, while `edge_colors` and the COO
     arrays read by the caller are numbered over all stored entries — the model keeps the two numberings as the code
     does (they coincide when every stored weight is positive). -/
 def getEdgeColors (nRow nCol : Nat) (es : List Entry) (edgeLabels : List (Int × Int × Int)) (edgeColor : PyStr)
-    (lc : LabelColors) : Except PyErr EdgeColors := do
+    (lc : LabelColors) : Except PyErr EdgeColors :=
   let posEs := es.filter fun e => e.2.2 > 0
   let data0 : List Int := posEs.map fun _ => -1
-  let (data, residual, colors) ←
-    if edgeLabels.isEmpty then pure (data0, [], ([] : List PyStr))
-    else do
-      let colors ← getLabelColors lc
-      let (d, r) ← edgeLabels.foldlM (fun (st : List Int × List (Nat × Nat × PyStr)) (lab : Int × Int × Int) => do
-        let (i, j, label) := lab
-        if i < 0 ∨ i ≥ (nRow : Int) ∨ j < 0 ∨ j ≥ (nCol : Int) then throw PyErr.valueError
-        if colors.length = 0 then throw PyErr.zeroDivisionError
-        let c := (label % (colors.length : Int)).toNat
-        if entryAt es i.toNat j.toNat ≠ 0 then
-          match posEs.findIdx? (fun e => e.1 = i.toNat ∧ e.2.1 = j.toNat) with
-          | some k => pure (st.1.set k (c : Int), st.2)
-          | none => throw PyErr.outOfModel       -- scipy inserts a new entry into `adjacency_labels`
-        else pure (st.1, st.2 ++ [(i.toNat, j.toNat, colors.getD c [])])) (data0, [])
-      pure (d, r, colors)
-  let edgeColors := tab es.length fun k =>
-    let v := if k < data.length then data.getD k (-1) else -1
-    if v ≥ 0 then colors.getD v.toNat [] else edgeColor
-  pure ⟨edgeColors, argsort data, residual⟩
+  if edgeLabels.isEmpty then
+    .ok ⟨edgeColorArray es.length data0 [] edgeColor, argsort data0, []⟩
+  else
+    match getLabelColors lc with
+    | .error e => .error e
+    | .ok colors =>
+      match edgeLabels.foldlM (edgeLabelStep nRow nCol es posEs colors) ⟨data0, []⟩ with
+      | .error e => .error e
+      | .ok st => .ok ⟨edgeColorArray es.length st.data colors edgeColor, argsort st.data, st.residual⟩
 
 /-! ### `visualize_graph` -/
 
